@@ -190,7 +190,8 @@ NATIVE_NAMES = [n for n in NATIVES if n != "signed char"]  # the 26 names common
 _NATIVE_POOL = NATIVE_NAMES + [n for n in NATIVE_NAMES if re.search(r"\d", n) or n in ("char", "float", "double")]  # sized names twice
 BY_WIDTH = {w: [n for n in NATIVE_NAMES if NATIVES[n] == w] for w in (1, 2, 4, 8)}
 LENGTHS = [1, 2, 3, 7, 8, 32, 255, 256, 1000]
-RESERVED_FIELD_NAMES = ("type_id", "type_name", "type_hash", "type_source", "type_def", "type_size", "hexdump")
+RESERVED_FIELD_NAMES = ("type_id", "type_name", "type_hash", "type_source", "type_def", "type_size", "hexdump", "to_dict", "to_json", "from_dict",
+                        "from_json", "copy", "pretty_print", "from_random", "get_field_raw", "from_buffer", "from_buffer_copy")
 OPT_IN = ("alias-of-imported-struct", "alias-of-imported-struct-field", "struct-contains-message", "string-special",
           "prefix-names", "zero-length", "long-names", "fractional-length", "reserved-field-name", "reserved-loose", "signed-char", "padding-field-name",
           "inexact-div-length", "rich-operators", "many-symbols", "string-control")
